@@ -1,8 +1,9 @@
 import ShootVerif.Proofs.MapperLeaves
 /-
 The observation lists the driver prints, against the specification lists, as theorems: C09's `obs09 = spec09` for all mask
-lists, the partially-nil keys of C05 / C15 on plain sides, and C05 with the per-leaf write counts (`obs15 = spec15` on plain
-sides: every leaf with a candidate is written exactly once, every other leaf never).
+lists, the partially-nil keys of C05 / C15 on plain sides, C05 with the per-leaf write counts (`obs15 = spec15` on plain
+sides: every leaf with a candidate is written exactly once, every other leaf never), and the round trip at the leaves
+(every line of `specRT` is a line of `obsRT`).
 -/
 namespace ShootVerif.Mapper
 open ShootVerif.Transfer
@@ -82,7 +83,8 @@ theorem length_le_one_of_nodup_const {α β} [DecidableEq β] (f : α → β) (k
     one does -/
 theorem to_cands (inp : Input) (H : PlainOk inp) (d : Leaf) (hd : d ∈ leavesOf inp.dest) :
     ((∀ c ∈ (plan inp).toStmts, c.wr ≠ fieldOf d) → candsTo inp d = []) ∧
-    (∀ c ∈ (plan inp).toStmts, c.wr = fieldOf d → ∃ x, candsTo inp d = [x]) := by
+    (∀ c ∈ (plan inp).toStmts, c.wr = fieldOf d →
+      ∃ rl ∈ leavesOf inp.src, c.rd = fieldOf rl ∧ candsTo inp d = [(rl, c.strat)]) := by
   have hsh := H.shadow
   rw [F_skipShadow_eq, Bool.or_eq_false_iff] at hsh
   have hsf : (plan inp).srcFields = sideFields inp.src false := by simp [plan, H.hs]
@@ -127,7 +129,7 @@ theorem to_cands (inp : Input) (H : PlainOk inp) (d : Leaf) (hd : d ∈ leavesOf
       have := h5.2.2.2.2.1
       rw [hcw] at this
       simpa [fieldOf] using this
-    refine ⟨(rl', c.strat), ?_⟩
+    refine ⟨rl', hrl', hr1, ?_⟩
     rw [hwp, hmw]
     simp only [Bool.not_false, Bool.and_self, ↓reduceIte]
     apply filterMap_single _ (leaves_nodup _ H.keys1) _ rl' _ hrl'
@@ -209,7 +211,8 @@ theorem to_writes (inp : Input) (H : PlainOk inp) (d : Leaf) (hd : d ∈ leavesO
 
 theorem from_cands (inp : Input) (H : PlainOk inp) (s : Leaf) (hs : s ∈ leavesOf inp.src) :
     ((∀ c ∈ (plan inp).fromStmts, c.wr ≠ fieldOf s) → candsFrom inp s = []) ∧
-    (∀ c ∈ (plan inp).fromStmts, c.wr = fieldOf s → ∃ x, candsFrom inp s = [x]) := by
+    (∀ c ∈ (plan inp).fromStmts, c.wr = fieldOf s →
+      ∃ rl ∈ leavesOf inp.dest, c.rd = fieldOf rl ∧ candsFrom inp s = [(rl, c.strat)]) := by
   have hsh := H.shadow
   rw [F_skipShadow_eq, Bool.or_eq_false_iff] at hsh
   have hsf : (plan inp).srcFields = sideFields inp.src false := by simp [plan, H.hs]
@@ -254,7 +257,7 @@ theorem from_cands (inp : Input) (H : PlainOk inp) (s : Leaf) (hs : s ∈ leaves
       have := h5.2.2.2.2.1
       rw [hcw] at this
       simpa [fieldOf] using this
-    refine ⟨(rl', c.strat), ?_⟩
+    refine ⟨rl', hrl', hr1, ?_⟩
     rw [hwp, hmw]
     simp only [Bool.not_false, Bool.and_self, ↓reduceIte]
     apply filterMap_single _ (leaves_nodup _ H.keys2) _ rl' _ hrl'
@@ -347,7 +350,7 @@ theorem obs15_eq_spec15_plain (inp : Input) (H : PlainOk inp) (hn : nestedMapped
       intro l hl
       by_cases hS : ∃ c ∈ (plan inp).toStmts, c.wr = fieldOf l
       · obtain ⟨c, hc, hcw⟩ := hS
-        obtain ⟨x, hx⟩ := (to_cands inp H l hl).2 c hc hcw
+        obtain ⟨x, _, _, hx⟩ := (to_cands inp H l hl).2 c hc hcw
         rw [hx, (to_writes inp H l hl).2 ⟨c, hc, hcw⟩]
         rfl
       · have hno : ∀ c ∈ (plan inp).toStmts, c.wr ≠ fieldOf l := fun c hc e => hS ⟨c, hc, e⟩
@@ -360,12 +363,169 @@ theorem obs15_eq_spec15_plain (inp : Input) (H : PlainOk inp) (hn : nestedMapped
       intro l hl
       by_cases hS : ∃ c ∈ (plan inp).fromStmts, c.wr = fieldOf l
       · obtain ⟨c, hc, hcw⟩ := hS
-        obtain ⟨x, hx⟩ := (from_cands inp H l hl).2 c hc hcw
+        obtain ⟨x, _, _, hx⟩ := (from_cands inp H l hl).2 c hc hcw
         rw [hx, (from_writes inp H l hl).2 ⟨c, hc, hcw⟩]
         rfl
       · have hno : ∀ c ∈ (plan inp).fromStmts, c.wr ≠ fieldOf l := fun c hc e => hS ⟨c, hc, e⟩
         rw [(from_cands inp H l hl).1 hno, (from_writes inp H l hl).1 hno]
         rfl
     · rfl
+
+
+/-! ## round trip at the leaves -/
+
+theorem resolve_fieldOf (t : Tree) (hsel : wfSelectors t = true) (hsh : skipShadowT t = false)
+    (hK : ((leavesOf t).map (fun l => joinPath l.path)).Nodup) (l : Leaf) (hl : l ∈ leavesOf t)
+    (hf : fieldOf l ∈ sideFields t false) : resolveField t (fieldOf l) = some l := by
+  obtain ⟨l', hl', he, hr, _⟩ := field_is_leaf t hsel hsh (fieldOf l) hf
+  rw [hr, fieldOf_inj t hK l l' hl hl' he]
+
+/-- round trip: a source leaf paired with a destination leaf of IDENTICAL type — each the other's only candidate, assignment
+    both ways — holds its own value again after `new(S).FromX(s.ToX())`: every line of the specification's round-trip list
+    is a line of the model's (FromX's statements run on the result of ToX) -/
+theorem specRT_sub_obsRT (inp : Input) (H : PlainOk inp) : ∀ e ∈ specRT inp, e ∈ obsRT inp := by
+  intro e he
+  have hsh := H.shadow
+  rw [F_skipShadow_eq, Bool.or_eq_false_iff] at hsh
+  have hsf : (plan inp).srcFields = sideFields inp.src false := by simp [plan, H.hs]
+  have hdf : (plan inp).destFields = sideFields inp.dest false := by simp [plan, H.hd]
+  have hcomp := modelCompiles_plain inp H.hs H.hd H.sel1 H.sel2 H.shadow
+  have hWF := WF09_of_input inp H.hs H.hd (by simp [H.hm]) H.sel1 H.sel2 H.shadow
+  have hexec := no_panic inp hWF []
+  have hpF := fun c => (plan_pairs inp H.hs H.hd H.uniq c).2
+  obtain ⟨_, _, hinv⟩ := plan_inv inp
+  have hdsN : (plan inp).destFields.Nodup := by rw [hdf]; exact nodup_of_map_nodup _ _ (sideFields_plain_nodup _)
+  have hNF := stmts_nodup _ _ hdsN hinv.fromNodup
+  unfold specRT at he
+  split at he
+  · cases he
+  rename_i hgen
+  simp only [Bool.or_eq_true, Bool.not_eq_true', not_or, Bool.not_eq_false] at hgen
+  rw [List.mem_filterMap] at he
+  obtain ⟨s, hs, hes⟩ := he
+  -- unpack the spec's condition
+  split at hes
+  · rename_i d hcf
+    split at hes
+    · rename_i s' hct
+      split at hes
+      · rename_i hpath
+        cases hes
+        have hpath' : s'.path = s.path := by simpa using hpath
+        -- the FromX statement writing s
+        have hexF : ∃ c ∈ (plan inp).fromStmts, c.wr = fieldOf s := by
+          apply Classical.byContradiction
+          intro hno
+          have := (from_cands inp H s hs).1 (fun c hc e => hno ⟨c, hc, e⟩)
+          rw [this] at hcf; cases hcf
+        obtain ⟨cs, hcs, hcsw⟩ := hexF
+        obtain ⟨rl, hrl, hrd, hcand⟩ := (from_cands inp H s hs).2 cs hcs hcsw
+        rw [hcf] at hcand
+        simp only [List.cons.injEq, Prod.mk.injEq, and_true] at hcand
+        obtain ⟨hdrl, hstrat⟩ := hcand
+        subst hdrl
+        -- the ToX statement writing d, and its value
+        have hd : d ∈ leavesOf inp.dest := hrl
+        have hexT : ∃ c ∈ (plan inp).toStmts, c.wr = fieldOf d := by
+          apply Classical.byContradiction
+          intro hno
+          have := (to_cands inp H d hd).1 (fun c hc e => hno ⟨c, hc, e⟩)
+          rw [this] at hct; cases hct
+        obtain ⟨cd, hcd, hcdw⟩ := hexT
+        obtain ⟨rl2, hrl2, _, hcand2⟩ := (to_cands inp H d hd).2 cd hcd hcdw
+        rw [hct] at hcand2
+        simp only [List.cons.injEq, Prod.mk.injEq, and_true] at hcand2
+        have hs's : s' = s := by
+          rw [hcand2.1]
+          exact key_inj inp.src H.keys1 rl2 s hrl2 hs (by rw [← hcand2.1, hpath'])
+        subst hs's
+        have hleaf := to_leaf inp H d hd
+        simp only [specTo, hct, optV, Option.some.injEq] at hleaf
+        -- unfold the model's round trip
+        unfold obsRT
+        have hg : (!(toGen inp && fromGen inp) || !modelCompiles inp || inp.srcNew || inp.destNew) = false := by
+          simp [hgen.1.1, hcomp, H.hs, H.hd]
+        rw [if_neg (by rw [hg]; exact Bool.false_ne_true)]
+        rw [hexec.1, hexec.2 .clean]
+        simp only
+        rw [List.mem_filterMap]
+        refine ⟨s', hs, ?_⟩
+        -- s is not written through a mapper method
+        have hskip : (fromFuncLeaves inp).contains (joinPath s'.path) = false := by
+          rw [Bool.eq_false_iff]
+          intro hc
+          rw [List.contains_iff_mem] at hc
+          unfold fromFuncLeaves at hc
+          rw [List.mem_filterMap] at hc
+          obtain ⟨c, hc1, hc2⟩ := hc
+          have h5 := (hpF c).mp hc1
+          obtain ⟨wl, hwl, hw1, hw2, _⟩ := field_is_leaf inp.src H.sel1 hsh.1 c.wr (hsf ▸ h5.1)
+          rw [hw2] at hc2
+          cases hst : c.strat with
+          | func k =>
+            rw [hst] at hc2
+            simp only [Option.some.injEq] at hc2
+            have : wl = s' := key_inj inp.src H.keys1 wl s' hwl hs hc2
+            have hcc : c = cs := inj_of_map_nodup (fun x : Claim => x.wr.name) _ hNF hc1 hcs (by
+              show c.wr.name = cs.wr.name
+              rw [hw1, hcsw, this])
+            rw [hcc, ← hstrat] at hst
+            cases hst
+          | assign => rw [hst] at hc2; cases hc2
+          | conv => rw [hst] at hc2; cases hc2
+          | sub r w => rw [hst] at hc2; cases hc2
+          | each r w => rw [hst] at hc2; cases hc2
+        rw [hskip]
+        simp only [Bool.false_eq_true, ↓reduceIte, Option.some.injEq, Prod.mk.injEq, true_and]
+        -- the entry FromX stores for s: what ToX left in d
+        have hrd' : resolveField inp.dest cs.rd = some d := by
+          rw [hrd]
+          exact resolve_fieldOf inp.dest H.sel2 hsh.2 H.keys2 d hd (hdf ▸ hrd ▸ ((hpF cs).mp hcs).2.1)
+        have hwr' : resolveField inp.src cs.wr = some s' := by
+          rw [hcsw]
+          exact resolve_fieldOf inp.src H.sel1 hsh.1 H.keys1 s' hs (hsf ▸ hcsw ▸ ((hpF cs).mp hcs).1)
+        have hentry : ∀ e' ∈ (plan inp).fromStmts.filterMap (rtValue inp (idealTo inp (plan inp) (tables inp (plan inp)) [])),
+            e'.1 = joinPath s'.path →
+            e' = (joinPath s'.path, (idealTo inp (plan inp) (tables inp (plan inp)) []).get (joinPath d.path)) := by
+          intro e' he' hk
+          rw [List.mem_filterMap] at he'
+          obtain ⟨c, hc1, hc2⟩ := he'
+          have h5 := (hpF c).mp hc1
+          obtain ⟨wl, hwl, hw1, hw2, _⟩ := field_is_leaf inp.src H.sel1 hsh.1 c.wr (hsf ▸ h5.1)
+          obtain ⟨dl, hdl, hd1, hd2, _⟩ := field_is_leaf inp.dest H.sel2 hsh.2 c.rd (hdf ▸ h5.2.1)
+          unfold rtValue at hc2
+          rw [hd2, hw2] at hc2
+          have hc3 : e' = (joinPath wl.path, (idealTo inp (plan inp) (tables inp (plan inp)) []).get (joinPath dl.path)) := by
+            cases hst : c.strat <;> rw [hst] at hc2 <;> simp at hc2 <;> exact hc2.symm
+          have hwl' : wl = s' := key_inj inp.src H.keys1 wl s' hwl hs (by rw [hc3] at hk; exact hk)
+          have hcc : c = cs := inj_of_map_nodup (fun x : Claim => x.wr.name) _ hNF hc1 hcs (by
+            show c.wr.name = cs.wr.name
+            rw [hw1, hcsw, hwl'])
+          rw [hcc, hrd'] at hd2
+          cases hd2
+          rw [hc3, hwl']
+        have hmem : (joinPath s'.path, (idealTo inp (plan inp) (tables inp (plan inp)) []).get (joinPath d.path)) ∈
+            (plan inp).fromStmts.filterMap (rtValue inp (idealTo inp (plan inp) (tables inp (plan inp)) [])) := by
+          rw [List.mem_filterMap]
+          refine ⟨cs, hcs, ?_⟩
+          unfold rtValue
+          rw [hrd', hwr', ← hstrat]
+        cases hfind : ((plan inp).fromStmts.filterMap (rtValue inp (idealTo inp (plan inp) (tables inp (plan inp)) []))).reverse.find?
+            (fun (e : String × V) => e.1 == joinPath s'.path) with
+        | none =>
+          have := List.find?_eq_none.mp hfind _ (List.mem_reverse.mpr hmem)
+          simp at this
+        | some e' =>
+          have hm := List.mem_reverse.mp (List.mem_of_find?_eq_some hfind)
+          have hk : e'.1 = joinPath s'.path := by simpa using List.find?_some hfind
+          rw [hentry e' hm hk]
+          simp only
+          rw [hexec.1] at hleaf
+          simp only [obsLeaf] at hleaf
+          rw [← hleaf]
+          rfl
+      · cases hes
+    · cases hes
+  · cases hes
 
 end ShootVerif.Mapper
